@@ -1541,7 +1541,7 @@ func (g *Generator) getTType(t *parser.Type) string {
 	default:
 		if g.Frugal.IsStruct(t) {
 			ttype = "STRUCT"
-		} else if g.Frugal.IsEnum(t) {
+		} else if g.Frugal.IsEnum(underlyingType) {
 			ttype = "I32"
 		} else {
 			panic("unrecognized type: " + underlyingType.Name)
